@@ -35,11 +35,14 @@ CONSTANTS MaxCmds,     \* commands submitted per behaviour
           MaxPending,  \* pipelined commands
           MaxNum,      \* largest message count
           MaxItems,    \* data responses per command
+          MaxUid,      \* largest UID a FETCH response carries (0: none)
+          MaxCode,     \* largest number in a COPYUID / APPENDUID response code
+          NFlagSets,   \* how many different flag lists the server uses (1 or 2)
           Kinds,       \* kinds of command the client submits in this instance
           Greetings    \* greetings the server may open with: subset of {"OK", "PREAUTH"}
 
 Mailboxes == {"A", "B"}
-FlagSets == {"f0", "f1"}          \* f0 = (\Seen), f1 = (\Seen \Deleted custom)  (concrete lists in the harness)
+FlagSets == IF NFlagSets = 1 THEN {"f0"} ELSE {"f0", "f1"}   \* f0 = (\Seen), f1 = (\Seen \Deleted custom)  (concrete lists in the harness)
 CapSets == {"c0", "c1"}           \* capability lists (concrete lists in the harness)
 Prefixes == {"p0", "p1"}          \* namespace descriptions
 None == "none"
@@ -182,8 +185,12 @@ PermFlags(f) ==
   /\ comp' = {} /\ UNCHANGED <<greet, cstate, alive>>
 
 \* * OK [UIDNEXT n] / * OK [UIDVALIDITY n] : part of the answer to SELECT
-UidNext(n) == alive /\ SelPending /\ n \in 1..MaxNum /\ SelAcc("uidnext", n) /\ comp' = {} /\ UNCHANGED <<greet, cstate, alive>>
-UidValidity(n) == alive /\ SelPending /\ n \in 1..MaxNum /\ SelAcc("uidval", n) /\ comp' = {} /\ UNCHANGED <<greet, cstate, alive>>
+\* (a server is free in the order of these; the model fixes one - validity, then next - and small values)
+UidValidity(n) == /\ alive /\ SelPending /\ n \in 1..MaxUid /\ cmds[Target("SELECT")].acc.uidval = 0
+                  /\ SelAcc("uidval", n) /\ comp' = {} /\ UNCHANGED <<greet, cstate, alive>>
+UidNext(n) == /\ alive /\ SelPending /\ n \in 1..MaxUid /\ cmds[Target("SELECT")].acc.uidval # 0
+              /\ cmds[Target("SELECT")].acc.uidnext = 0
+              /\ SelAcc("uidnext", n) /\ comp' = {} /\ UNCHANGED <<greet, cstate, alive>>
 
 \* * n EXPUNGE : the server only expunges existing messages of the selected mailbox
 Expunge(n) ==
@@ -208,7 +215,7 @@ FetchTargets(n, u) == {i \in PendingIn(FetchClass) : Wants(i, n, u)}
 \* * n FETCH ([UID u] FLAGS (...))
 \* a FETCH response no pending command takes (not asked for, or already given) is a unilateral flag update
 Fetch(n, f, u) ==
-  /\ alive /\ cstate = "selected" /\ ~SelPending /\ n \in 1..mbox.num /\ f \in FlagSets /\ u \in 0..MaxNum
+  /\ alive /\ cstate = "selected" /\ ~SelPending /\ n \in 1..mbox.num /\ f \in FlagSets /\ u \in 0..MaxUid
   /\ IF FetchTargets(n, u) # {}
      THEN LET t == Oldest(FetchTargets(n, u)) IN
           /\ RoomFor(t)
@@ -319,7 +326,7 @@ Flushed(c) == IF c.kind = "LISTSTATUS" /\ c.acc.pendm # None
 Tagged(i, st, code) ==
   /\ alive /\ i \in PendingIds /\ st \in {"OK", "NO", "BAD"}
   /\ st = "OK" => OkAllowed(i)
-  /\ code \in 0..MaxNum /\ (code # 0 => st = "OK" /\ cmds[i].kind \in {"COPY", "APPEND"})
+  /\ code \in 0..MaxCode /\ (code # 0 => st = "OK" /\ cmds[i].kind \in {"COPY", "APPEND"})
   \* commands with the same class of untagged data are completed in the order they were sent
   /\ cmds[i].kind \in Ordered => \A j \in PendingIn(ClassOf(cmds[i].kind)) : i <= j
   \* IDLE: refused instead of the continuation request, or completed after DONE
@@ -361,7 +368,7 @@ Next ==
   \/ \E n \in 0..MaxNum : Exists(n) \/ Expunge(n) \/ Search(n) \/ Sort(n) \/ Thread(n) \/ MoveUid(n)
                           \/ UidNext(n) \/ UidValidity(n)
   \/ \E f \in FlagSets : Flags(f) \/ PermFlags(f)
-  \/ \E n \in 1..MaxNum, f \in FlagSets, u \in 0..MaxNum : Fetch(n, f, u)
+  \/ \E n \in 1..MaxNum, f \in FlagSets, u \in 0..MaxUid : Fetch(n, f, u)
   \/ \E m \in Mailboxes, n \in 0..MaxNum : Status(m, n) \/ Quota(m, n) \/ Metadata(m, n)
   \/ \E m \in Mailboxes : List(m) \/ MetaChanged(m) \/ \E r \in Mailboxes : QuotaRoot(m, r)
   \/ \E c \in CapSets : Caps(c)
@@ -369,7 +376,7 @@ Next ==
   \/ Enabled
   \/ \E i \in 1..MaxCmds, n \in 1..MaxNum : Esearch(i, n)
   \/ Closed
-  \/ \E i \in 1..MaxCmds, st \in {"OK", "NO", "BAD"}, code \in 0..MaxNum : Tagged(i, st, code)
+  \/ \E i \in 1..MaxCmds, st \in {"OK", "NO", "BAD"}, code \in 0..MaxCode : Tagged(i, st, code)
   \/ Bye
 
 Spec == Init /\ [][Next]_vars
